@@ -23,6 +23,7 @@ from pydrobert.torch.distributions import SequentialLanguageModelDistribution
 from mc.runner import Ctx
 from mc.explore import Chooser, HarnessError, explore
 from mc.seams import ScriptedRandom
+from mc.guards import lifecycle_variants
 from mc.oracles import seqscores as O
 from checks._c07_lm import ScriptTableLM, TableLM
 
@@ -63,6 +64,22 @@ RULE = (
     "one-step packing), each x the six input/torch states; RandomWalk scripted together with a scriptable twin of "
     "the table LM: for generator seeds 0..7 x {plain, inference_mode, default float64} the scripted walk must "
     "return exactly the eager result from the same generator state and satisfy the per-leaf clauses. "
+    "OBJECT LIFECYCLE (b, c, j): the whole walk tree (V=3; max_iters 3 unbatched / 2 with batch 2) and the whole "
+    "sampling tree (V=3, max_iters 2, two rows, cache both for the generic operations) again on the object obtained "
+    "by deepcopy / pickle / torch.save / deepcopy-after-use (applied to the distribution wrapper, walk and LM "
+    "inside) and eval+deepcopy / state_dict / state_dict-after-use / double-float / state_dict-into-other (applied "
+    "to the RandomWalk), for eos in {0 (falsy), 2, None}; state_dict-into-other loads the state dict written by a "
+    "walk with ANOTHER eos (every ordered pair of different values) and other weights: the evaluated object keeps "
+    "its own options and computes with the loaded weights. SequenceLogProbabilities and CTCGreedySearch get the "
+    "same nine operations in part j (batch of all hyps / ragged batch, plain + one rotating input state). "
+    "w) SECONDARY ENTRY POINT random_walk_advance (functional and util spelling) driven directly: two consecutive "
+    "steps from one shared prompt buffer of S in 0..3 rows holding garbage, N in {1,2}, V in {2,3}, y_prev_lens None "
+    "and every vector in {0..S}^N (spare rows whenever max < S), whole tree of draws; path prefix + drawn token, "
+    "growth rule of the returned history, log-prob bookkeeping, draw probabilities, arguments unchanged, step-1 "
+    "result kept during step 2, every rollout kept until all rollouts from the buffer are done. "
+    "CALLER-OWNED TENSORS (c, cache_samples=True): a returned sample / a scored value / returned log-probs edited "
+    "in place afterwards must not be answered from the cache; the wrapper re-used after the LM raised once inside "
+    "log_prob (every leaf of the sampling trees with <= 100 leaves). VALUES AFTER THE FIRST EOS of a scored sample hold another token / V / -1 instead of eos padding. "
     "Cases are distinct by construction (cartesian products of duplicate-free generators; explorer "
     "leaves are distinct choice lists); non-trivial = at least one in-vocabulary token is scored (a,p), the "
     "path has >= 2 tokens or ends early (b,c), the collapsed output differs from the raw labels (d)."
@@ -77,6 +94,10 @@ ASSUMPTIONS = [
     "scores at positions the property declares ignored (OOV token, after the first eos, frames >= in_lens, LM "
     "outputs for finished paths) may be anything including nan/+-inf; valid positions are always finite",
     "each a/p case gets ONE kind of garbage in its ignored positions (rotating), not all four",
+    "lifecycle operations are run on reduced configurations (V=3, max_iters<=3), not on the whole enumeration; "
+    "no history of this check reassigns a __constants__ attribute of a live module (new configurations are new "
+    "objects)",
+    "beam_search_advance / ctc_prefix_search_advance belong to C04 / C05 and are not driven here",
     "max_iters=None (unbounded walks) is not explored; CUDA not explored; the process-wide PYTORCH_JIT=1 "
     "(config.USE_JIT, every helper compiled at import) configuration is not explored",
     "scripted / traced modules are exercised per batch (part j), not per enumerated case; the draws inside a "
@@ -523,7 +544,7 @@ def _p_unit(ctx, u, tier, seed, only=None):
 # =========================================================================================
 # distribution.log_prob with the work-arounds for F17/F18 (each failure is still reported)
 # =========================================================================================
-def _dist_log_prob(ctx, d, value, case, T, eosn, bset, guard=None):
+def _dist_log_prob(ctx, d, value, case, T, eosn, bset, guard=None, history=None):
     """Calls d.log_prob(value) with the distribution's own (default) validation.  Every raise is
     recorded as a violation with a precise signature; then the matching work-around is applied
     (pad short samples with eos / give the sample exactly one sample dimension) so that the score
@@ -545,7 +566,8 @@ def _dist_log_prob(ctx, d, value, case, T, eosn, bset, guard=None):
             ctx.violation(
                 {"api": API_LP, "symptom": "raises", "type": type(e).__name__, "msg": msg,
                  "batch_size_set": bset, "sample_dims": v.dim() - 1 - (1 if bset else 0),
-                 "one_sample_dim": v.dim() - 1 - (1 if bset else 0) == 1, "shorter_than_max_iters": S < T},
+                 "one_sample_dim": v.dim() - 1 - (1 if bset else 0) == 1, "shorter_than_max_iters": S < T,
+                 "history": history or "none"},
                 dict(case, log_prob_value=v, workarounds=list(wa)),
                 {"error": str(e)[-300:]},
             )
@@ -585,6 +607,56 @@ def _lm_protocol(ctx, lm, api, case):
 # =========================================================================================
 # part b: RandomWalk, whole tree
 # =========================================================================================
+LC_GENERIC = ("deepcopy", "pickle", "torch.save", "used+deepcopy")
+LC_MODULE = ("eval+deepcopy", "state_dict", "state_dict-after-use", "double-float", "state_dict-into-other")
+
+
+def _lifecycle_objects(kind, V, T, eos, eos_src, seed, dist_from_walk, used_walk, used_dist):
+    """The walk / distribution that is evaluated after a lifecycle operation, plus the table a FRESH object with
+    the evaluated object's option values would read.  Generic operations are applied to the distribution (the walk
+    and its LM travel inside); module-only operations to the walk.  'state_dict-into-other': a walk built with the
+    option values under evaluation (eos) but other weights loads the state dict written by a walk with eos_src:
+    a state dict carries weights, never configuration."""
+    ref = TableLM(V, T, seed)
+
+    def make_walk():
+        return M.RandomWalk(TableLM(V, T, seed), eos)
+
+    if kind in LC_GENERIC:
+        got = list(lifecycle_variants(lambda: dist_from_walk(make_walk()), used_dist, kinds={kind}))
+        if not got:
+            return None
+        d = got[0][1]
+        walk = d.random_walk
+    elif kind == "state_dict-into-other":
+        got = list(lifecycle_variants(lambda: M.RandomWalk(TableLM(V, T, seed), eos_src), used_walk, kinds={kind},
+                                      make_other=lambda: M.RandomWalk(TableLM(V, T, seed + 7919), eos)))
+        if not got:
+            return None
+        walk = got[0][1]
+        d = dist_from_walk(walk)
+    else:
+        got = list(lifecycle_variants(make_walk, used_walk, kinds={kind}))
+        if not got:
+            return None
+        walk = got[0][1]
+        d = dist_from_walk(walk)
+    return walk.lm, ref.table_list, walk, d
+
+
+def _lc_configs():
+    """(kind, eos, eos_src): falsy-but-legal eos=0, an ordinary one, and unset; for the state-dict-into-other
+    variant every ordered pair of different option values."""
+    for kind in LC_GENERIC + LC_MODULE:
+        for eos in (0, 2, None):
+            if kind == "state_dict-into-other":
+                for src in (0, 2, None):
+                    if src != eos:
+                        yield kind, eos, src
+            else:
+                yield kind, eos, None
+
+
 def _walk_configs(tier):
     Ts = (1, 2, 3, 4) if tier == "thorough" else (1, 2, 3)
     for V in (2, 3):
@@ -608,6 +680,11 @@ def _b_units(tier):
         for mode in B_MODES:
             units.append({"part": "b", "V": V, "max_iters": T, "eos": eos, "batch_size": bs, "mode": mode,
                           "w": leaves * 2500 + 5000})
+    # object lifecycle: the whole (small) tree again on the walk / wrapper after each lifecycle operation
+    for kind, eos, src in _lc_configs():
+        for bs, T in ((None, 3), (2, 2)):
+            units.append({"part": "b", "V": 3, "max_iters": T, "eos": eos, "batch_size": bs, "mode": "plain",
+                          "lifecycle": kind, "eos_src": src, "w": _n_leaves(3, T, eos, bs or 1) * 2500 + 30000})
     return units
 
 
@@ -624,18 +701,33 @@ def _b_unit_inner(ctx, u, tier, seed, only=None):
     mode = u.get("mode", "plain")
     N = bs or 1
     eosn = None if eos is None else eos % V
-    lm = TableLM(V, T, seed, poison_eos=eosn, grad=mode == "requires-grad")
+    lc = u.get("lifecycle")
     rows = [(b + 1) % 2 for b in range(N)]
     init = {"row": torch.tensor(rows)}
-    tree = _Tree(["b", V, T, eos, bs, mode])
+    tree = _Tree(["b", V, T, eos, bs, mode, lc, u.get("eos_src")])
     guard = _Guard(ctx)
     gcase = {"part": "b", "unit": u, "seed": seed, "tier": tier}
     try:
-        walk = M.RandomWalk(lm, eos)
-        dist = SequentialLanguageModelDistribution(walk, None, dict(init), max_iters=T)
+        if lc is None:
+            lm = TableLM(V, T, seed, poison_eos=eosn, grad=mode == "requires-grad")
+            table_list = lm.table_list
+            walk = M.RandomWalk(lm, eos)
+            dist = SequentialLanguageModelDistribution(walk, None, dict(init), max_iters=T)
+        else:
+            objs = _lifecycle_objects(
+                lc, V, T, eos, u.get("eos_src"), seed,
+                lambda w: SequentialLanguageModelDistribution(w, None, dict(init), max_iters=T),
+                lambda w: w(dict(init), bs, T),
+                lambda dd: dd.log_prob(dd.sample([N])))
+            if objs is None:
+                ctx.count("lifecycle_variant_not_available")
+                return
+            lm, table_list, walk, dist = objs
+            ctx.count("lifecycle_objects")
     except Exception as e:  # noqa: BLE001
         ctx.case(1)
-        ctx.violation({"api": "RandomWalk", "symptom": "raises", "where": "constructor", "type": type(e).__name__},
+        ctx.violation({"api": "RandomWalk", "symptom": "raises", "where": "constructor", "type": type(e).__name__,
+                       "lifecycle": lc},
                       {"part": "b", "unit": u, "seed": seed, "tier": tier}, {"error": str(e)[-300:]})
         return
 
@@ -662,7 +754,8 @@ def _b_unit_inner(ctx, u, tier, seed, only=None):
     leaf_paths = []
     for ch, res in executions:
         case = {"part": "b", "unit": u, "choices": ch.choices, "seed": seed, "tier": tier}
-        sig0 = {"api": "RandomWalk", "eos_set": eos is not None, "batched": bs is not None, "torch_state": mode}
+        sig0 = {"api": "RandomWalk", "eos_set": eos is not None, "batched": bs is not None, "torch_state": mode,
+                "lifecycle": lc}
         mass += ch.prob
         if isinstance(res, Exception):
             ctx.case(1)
@@ -711,7 +804,7 @@ def _b_unit_inner(ctx, u, tier, seed, only=None):
         leaf_paths.append(tuple(tuple(p) for p in paths))
         mass_reported += math.exp(sum(reported))
         # ---- score 1: reported == chain rule; leaf probability == exp(reported) ------------
-        chain = [O.chain_rule(lm.table_list[rows[b]], paths[b], V) for b in range(N)]
+        chain = [O.chain_rule(table_list[rows[b]], paths[b], V) for b in range(N)]
         agree = True
         if any(not O.close(r, c, TOL) for r, c in zip(reported, chain)):
             agree = False
@@ -767,7 +860,8 @@ def _b_unit_inner(ctx, u, tier, seed, only=None):
     tree.flush(ctx)
     # ---- over the whole tree -----------------------------------------------------------
     tcase = {"part": "b", "unit": u, "seed": seed, "tier": tier}
-    tsig = {"api": "RandomWalk", "eos_set": eos is not None, "batched": bs is not None, "torch_state": mode}
+    tsig = {"api": "RandomWalk", "eos_set": eos is not None, "batched": bs is not None, "torch_state": mode,
+            "lifecycle": lc}
     if not O.close(mass, 1.0, 1e-9):
         ctx.violation(dict(tsig, symptom="tree-mass-not-one"), tcase, {"sum_of_leaf_probabilities": mass})
     if not O.close(mass_reported, 1.0, 1e-4):
@@ -809,7 +903,16 @@ def _c_units(tier):
                     continue
                 seen.add(key)
                 units.append({"part": "c", "V": V, "max_iters": T, "eos": eos, "batch_size": bs,
-                              "shape": list(shape), "cache": cache, "w": leaves * (3500 if cache else 2500) + 5000})
+                              "shape": list(shape), "cache": cache,
+                              "w": leaves * ((6500 if leaves <= 100 else 3800) if cache else 3000) + 5000})
+    # object lifecycle (generic operations on the wrapper itself, with and without its cache; module operations
+    # on the walk inside a fresh wrapper)
+    for kind, eos, src in _lc_configs():
+        for bs, shape in ((None, [2]), (2, [])):
+            for cache in ((False, True) if kind in LC_GENERIC else (False,)):
+                units.append({"part": "c", "V": 3, "max_iters": 2, "eos": eos, "batch_size": bs, "shape": shape,
+                              "cache": cache, "lifecycle": kind, "eos_src": src,
+                              "w": _n_leaves(3, 2, eos, 2) * (6500 if cache else 3200) + 30000})
     return units
 
 
@@ -830,14 +933,40 @@ def _c_unit(ctx, u, tier, seed, only=None):
     bset = bs is not None
     # the LM's scores are attached to the autograd graph in one of the two cache variants of every configuration
     grad = cache != ((V + T + (bs or 0) + len(shape) + sum(shape)) % 2 == 0)
-    lm, rows, d = _make_dist(V, T, eos, bs, cache, seed, grad)
-    tree = _Tree(["c", V, T, eos, bs, shape, cache])
+    lc = u.get("lifecycle")
+    if lc is None:
+        lm, rows, d = _make_dist(V, T, eos, bs, cache, seed, grad)
+        table_list = lm.table_list
+    else:
+        rows = [(b + 1) % 2 for b in range(bs)] if bs else [0]
+        init_c = {"row": torch.tensor(rows)} if bs else None
+        try:
+            objs = _lifecycle_objects(
+                lc, V, T, eos, u.get("eos_src"), seed,
+                lambda w: SequentialLanguageModelDistribution(w, bs, init_c, max_iters=T, cache_samples=cache),
+                lambda w: w(dict(init_c or {}), bs or 2, T),
+                lambda dd: dd.log_prob(dd.sample(torch.Size(shape))))
+        except Exception as e:  # noqa: BLE001
+            ctx.case(1)
+            ctx.violation({"api": API_SAMPLE, "symptom": "raises", "where": "lifecycle-operation", "lifecycle": lc,
+                           "type": type(e).__name__}, {"part": "c", "unit": u, "seed": seed, "tier": tier},
+                          {"error": str(e)[-300:]})
+            return
+        if objs is None:
+            ctx.count("lifecycle_variant_not_available")
+            return
+        lm, table_list, _, d = objs
+        ctx.count("lifecycle_objects")
+    first_leaf = [lc is not None]  # a cache that travelled with a copied wrapper is not cleared before its first use
+    tree = _Tree(["c", V, T, eos, bs, shape, cache, lc, u.get("eos_src")])
     comp = set(O.complete_paths(V, T, eos))
     guard = _Guard(ctx)
     gcase = {"part": "c", "unit": u, "seed": seed, "tier": tier}
 
     def run(ch):
-        d.clear_cache()
+        if not first_leaf[0]:
+            d.clear_cache()
+        first_leaf[0] = False
         with ScriptedRandom(ch) as sr:
             s = guard("sample", API_SAMPLE, dict(gcase, choices=ch.prefix),
                       lambda: d.sample(torch.Size(shape)), d.initial_state)
@@ -861,7 +990,7 @@ def _c_unit(ctx, u, tier, seed, only=None):
         nleaves += 1
         case = {"part": "c", "unit": u, "choices": ch.choices, "seed": seed, "tier": tier}
         sig0 = {"api": API_SAMPLE, "eos_set": eos is not None, "batch_size_set": bset, "sample_dims": len(shape),
-                "cache": cache}
+                "cache": cache, "lifecycle": lc}
         mass += ch.prob
         if isinstance(res, Exception):
             ctx.case(1)
@@ -921,7 +1050,7 @@ def _c_unit(ctx, u, tier, seed, only=None):
             ctx.violation({"api": "TokenSequenceConstraint.check", "symptom": "raises", "type": type(e).__name__},
                           case, {"error": str(e)[-300:]})
         # ---- scores ------------------------------------------------------------------
-        chain = [[O.chain_rule(lm.table_list[rows[b]], paths[m][b], V) for b in range(N)] for m in range(Msz)]
+        chain = [[O.chain_rule(table_list[rows[b]], paths[m][b], V) for b in range(N)] for m in range(Msz)]
         flat_chain = [x for row in chain for x in row]
         total = sum(flat_chain)
         mass_oracle += math.exp(total)
@@ -932,15 +1061,23 @@ def _c_unit(ctx, u, tier, seed, only=None):
                           {"sample": s, "log_prob_of_draws": math.log(ch.prob), "chain_rule_total": total})
 
         def compare(tag, value, want):
-            lp, wa = _dist_log_prob(ctx, d, value, dict(case, step=tag), T, eos, bset, guard)
-            _lm_protocol(ctx, lm, API_LP, case)
+            lp, wa = _dist_log_prob(ctx, d, value, dict(case, step=tag), T, eos, bset, guard,
+                                    history=tag if tag.startswith("after-eos:") else None)
+            if lm.protocol_errors:
+                ctx.violation({"api": API_LP, "symptom": "lm-called-out-of-protocol",
+                               "history": tag if tag.startswith(("cache:", "after-eos:")) else "none"},
+                              dict(case, step=tag), {"errors": lm.protocol_errors[:4], "value": value})
+                del lm.protocol_errors[:]
+                return False
             if lp is None:
                 return False
             gl = lp.detach().reshape(-1).tolist()
             if any(not O.close(a, c, TOL) for a, c in zip(gl, want)):
                 ctx.violation({"api": API_LP, "symptom": "wrong-value", "batch_size_set": bset,
                                "eos_set": eos is not None,
-                               "cache_probe": tag == "different-value-same-shape"},
+                               "cache_probe": tag == "different-value-same-shape" or tag.startswith("cache:"),
+                               "history": tag if tag.startswith(("cache:", "after-eos:")) else "none",
+                               "lifecycle": lc},
                               dict(case, step=tag),
                               {"sample": value, "observed": gl, "chain_rule": want, "workarounds": wa})
                 return False
@@ -949,6 +1086,19 @@ def _c_unit(ctx, u, tier, seed, only=None):
             return True
 
         agree &= compare("after-sample", s, flat_chain)
+        if eos is not None and any(len(p) < S for row in paths for p in row):
+            # "any value beyond the first eos in each sequence is ignored" (TokenSequenceConstraint): the positions
+            # after the end of a path hold another token / an out-of-vocabulary id instead of the eos padding
+            gk = ("other-token", "oov-high", "oov-negative")[nleaves % 3]
+            junk = {"other-token": (eos + 1) % V, "oov-high": V, "oov-negative": -1}[gk]
+            dirty = s3.clone()
+            for m in range(Msz):
+                for b in range(N):
+                    dirty[m, b, len(paths[m][b]):] = junk
+            d.clear_cache()
+            del lm.protocol_errors[:]
+            agree &= compare("after-eos:" + gk, dirty.reshape(s.shape), flat_chain)
+            d.clear_cache()
         if cache:
             d.clear_cache()
             agree &= compare("after-clear-cache", s, flat_chain)
@@ -958,6 +1108,38 @@ def _c_unit(ctx, u, tier, seed, only=None):
                 alt = s3.roll(1, 0).reshape(s.shape)
                 alt_chain = [x for row in (chain[-1:] + chain[:-1]) for x in row]
                 agree &= compare("different-value-same-shape", alt, alt_chain)
+                if not torch.equal(alt, s) and len(comp) ** (Msz * N) <= 100:
+                    # (histories on the trees with at most 100 leaves: they need a handful of values, not all)
+                    # (i) tensors handed out / handed in belong to the caller: editing them in place afterwards
+                    # must not make log_prob answer from a cache entry that no longer describes the value
+                    d.clear_cache()
+                    mine = s.clone()
+                    compare("cache:fill-by-log_prob", mine, flat_chain)
+                    mine.copy_(alt)
+                    agree &= compare("cache:value-edited-in-place-after-log_prob", mine, alt_chain)
+                    d.clear_cache()
+                    with ScriptedRandom(Chooser(prefix=ch.choices)):
+                        again = d.sample(torch.Size(shape))
+                    if torch.equal(again, s):
+                        again.copy_(alt)
+                        agree &= compare("cache:sample-edited-in-place", again, alt_chain)
+                    d.clear_cache()
+                    lp_mine, _ = _dist_log_prob(ctx, d, s, dict(case, step="cache:fill-by-log_prob"), T, eos, bset)
+                    if lp_mine is not None:
+                        lp_mine.detach().add_(1.0)  # the result belongs to the caller too
+                        guard.kept.pop("log_prob", None)
+                        agree &= compare("cache:log_prob-result-edited-in-place", s, flat_chain)
+                    # (ii) the wrapper is used again after a call failed inside the language model and the caller
+                    # caught the error
+                    d.clear_cache()
+                    compare("cache:fill-by-log_prob", s, flat_chain)
+                    lm.fail_next = 1
+                    try:
+                        d.log_prob(alt.clone())
+                    except RuntimeError:
+                        pass
+                    lm.fail_next = 0
+                    agree &= compare("cache:after-caught-failure-in-lm", alt, alt_chain)
         if agree:
             ctx.traces += 1
             ctx.outcome([paths, S])
@@ -1293,6 +1475,28 @@ def _jit_variants(ctx, module, examples, api, case):
     return out
 
 
+def _lifecycle_modules(ctx, make, make_src, used, api, case):
+    """('lc:<operation>', module) for every lifecycle operation; make_src() has OTHER option values and writes the
+    state dict that is loaded into a module built by make() (which must keep its own options)."""
+    out = []
+    try:
+        for name, obj in lifecycle_variants(make, used, kinds=set(LC_GENERIC + LC_MODULE) - {"state_dict-into-other"}):
+            out.append(("lc:" + name, obj))
+        for name, obj in lifecycle_variants(make_src, used, kinds={"state_dict-into-other"}, make_other=make):
+            out.append(("lc:" + name, obj))
+    except Exception as e:  # noqa: BLE001
+        ctx.violation({"api": api, "symptom": "raises", "where": "lifecycle-operation", "type": type(e).__name__},
+                      case, {"error": str(e)[-300:]})
+    ctx.count("lifecycle_objects", len(out))
+    return out
+
+
+def _states_for(vname, k):
+    if vname.startswith("lc:"):
+        return ("plain", STATES[1 + k % (len(STATES) - 1)])
+    return STATES
+
+
 def _j_seq(ctx, u, tier, seed):
     V, layout, dim, eos = u["V"], u["layout"], u["dim"], u["eos"]
     T = 3
@@ -1324,11 +1528,15 @@ def _j_seq(ctx, u, tier, seed):
     case = {"part": "j", "unit": u, "seed": seed, "tier": tier}
     module = M.SequenceLogProbabilities(dim, eos)
     variants = _jit_variants(ctx, module, [("trace", (lx.contiguous(), hx.contiguous()))], "sequence_log_probs", case)
+    eos_src = 1 if eos in (None, 0) else 0
+    variants += _lifecycle_modules(ctx, lambda: M.SequenceLogProbabilities(dim, eos),
+                                   lambda: M.SequenceLogProbabilities(dim, eos_src),
+                                   lambda m: m(lx.contiguous(), hx.contiguous()), "sequence_log_probs", case)
     guard = _Guard(ctx)
     ctx.sample({"part": "j", "unit": {k: u[k] for k in u if k != "w"}, "batch_of_all_hyps": K * E,
                 "variants": [v[0] for v in variants], "states": STATES})
-    for vname, fn in variants:
-        for state in STATES:
+    for vk, (vname, fn) in enumerate(variants):
+        for state in _states_for(vname, vk):
             lg, hy = logits, hyp
             if state == "requires-grad":
                 lg = logits.clone().requires_grad_(True)
@@ -1440,10 +1648,15 @@ def _j_ctc(ctx, u, tier, seed):
             example = (ex, torch.tensor([2])) if given else (ex,)
             variants = _jit_variants(ctx, module, [("trace", example)], "ctc_greedy_search",
                                      dict(case, batch_first=batch_first, is_probs=is_probs, in_lens_given=given))
+            if given:
+                variants += _lifecycle_modules(
+                    ctx, lambda: M.CTCGreedySearch(blank, batch_first, is_probs),
+                    lambda: M.CTCGreedySearch((blank + 1 + C) % C, not batch_first, not is_probs),
+                    lambda m: m(ex, torch.tensor([2])), "ctc_greedy_search", case)
             fills = D_FILLS[is_probs] if given else ("own-frames",)
             for vi, (vname, fn) in enumerate(variants):
                 call = (lambda inp, il, fn=fn: fn(inp, il)) if given else (lambda inp, il, fn=fn: fn(inp))
-                for si, state in enumerate(STATES):
+                for si, state in enumerate(_states_for(vname, vi)):
                     _d_eval(ctx, u, case, full, rows, given, blank, batch_first, is_probs, True, "ragged-batch",
                             guard, None, fills[(si + vi) % len(fills)], state, call, vname)
 
@@ -1508,6 +1721,119 @@ def _j_walk(ctx, u, tier, seed):
                 ctx.count("scripted_walks_equal_to_eager")
 
 
+# =========================================================================================
+# part w: random_walk_advance (public step helper) driven directly, preallocated histories
+# =========================================================================================
+def _w_units(tier):
+    units = []
+    for V in (2, 3):
+        for N in (1, 2):
+            for S in range(0, 4):
+                units.append({"part": "w", "V": V, "N": N, "S": S, "w": ((S + 1) ** N + 1) * (V ** (2 * N)) * 700 + 20000})
+    return units
+
+
+def _w_unit(ctx, u, tier, seed, only=None):
+    """Two consecutive steps of random_walk_advance from ONE shared prompt buffer of S rows, for every y_prev_lens
+    (None and every vector in {0..S}^N - spare rows whenever max(lens) < S), the whole tree of draws; the step-1
+    result is kept while step 2 is computed, and every rollout is kept until all rollouts from the buffer are done."""
+    import pydrobert.torch.util as U
+
+    V, N, S = u["V"], u["N"], u["S"]
+    rng = _rng(seed, "w", V, N, S)
+    garbage = [-1, V] + list(range(V))
+    prompt = torch.tensor([[garbage[(3 * t + 5 * b + t * b) % len(garbage)] for b in range(N)] for t in range(S)],
+                          dtype=torch.long).reshape(S, N)
+    lpt = [_rand_tensor(rng, (N, V)).log_softmax(1) for _ in range(2)]
+    lp0 = _rand_tensor(rng, (N,))
+    lpt_l = [x.double().tolist() for x in lpt]
+    lp0_l = lp0.double().tolist()
+    prompt_l = prompt.t().tolist() if S else [[] for _ in range(N)]
+    guard = _Guard(ctx)
+    patterns = [None] + [list(p) for p in itertools.product(range(S + 1), repeat=N)]
+    for pi, lens in enumerate(patterns):
+        if only is not None and only.get("lens", "x") != lens:
+            continue
+        y_lens = None if lens is None else torch.tensor(lens, dtype=torch.long)
+        eff = [S] * N if lens is None else lens
+        adv = F.random_walk_advance if pi % 2 == 0 else U.random_walk_advance
+        case0 = {"part": "w", "unit": u, "seed": seed, "tier": tier, "sub": {"lens": lens}}
+        sig0 = {"api": "random_walk_advance", "y_prev_lens_given": lens is not None,
+                "spare_rows": lens is not None and S > 0 and max(lens) < S, "empty_history": S == 0}
+        tree = _Tree(["w", V, N, S, lens])
+
+        def run(ch):
+            with ScriptedRandom(ch) as sr:
+                c = dict(case0, whole_unit=True)
+                y1, lp1 = guard("adv", "random_walk_advance", c, lambda: adv(lpt[0], lp0, prompt, y_lens),
+                                lpt[0], lp0, prompt, y_lens)
+                lens1 = None if y_lens is None else y_lens + 1
+                y2, lp2 = guard("adv", "random_walk_advance", c, lambda: adv(lpt[1], lp1, y1, lens1),
+                                lpt[1], lp1, y1, lens1)
+            return (y1, lp1, y2, lp2), sr.calls
+
+        kept = []
+        mass = 0.0
+        for ch, res in explore(run):
+            case = dict(case0, choices=ch.choices)
+            mass += ch.prob
+            ctx.case(1, 1)
+            if isinstance(res, Exception):
+                ctx.violation(dict(sig0, symptom="raises", type=type(res).__name__), case, {"error": str(res)[-300:]})
+                continue
+            (y1, lp1, y2, lp2), calls = res
+            draws = [[r[0] for r in c[2]] for c in calls if c[0] == "multinomial"]
+            tree.add_leaf(draws)
+            if len(draws) != 2:
+                ctx.violation(dict(sig0, symptom="number-of-draws"), case, {"draws": draws})
+                continue
+            rows1 = S + 1 if (lens is None or max(eff) >= S) else S
+            rows2 = rows1 + 1 if (lens is None or max(eff) + 1 >= rows1) else rows1
+            if tuple(y1.shape) != (rows1, N) or tuple(y2.shape) != (rows2, N) or tuple(lp1.shape) != (N,) \
+                    or tuple(lp2.shape) != (N,):
+                ctx.violation(dict(sig0, symptom="wrong-shape"), case,
+                              {"y1": list(y1.shape), "y2": list(y2.shape), "expected_rows": [rows1, rows2]})
+                continue
+            ok = True
+            for b in range(N):
+                h1 = prompt_l[b][: eff[b]] + [draws[0][b]]
+                h2 = h1 + [draws[1][b]]
+                e1 = lp0_l[b] + lpt_l[0][b][draws[0][b]]
+                e2 = e1 + lpt_l[1][b][draws[1][b]]
+                if y1[: eff[b] + 1, b].tolist() != h1 or y2[: eff[b] + 2, b].tolist() != h2:
+                    ok = False
+                    ctx.violation(dict(sig0, symptom="wrong-path"), case,
+                                  {"batch_element": b, "expected": [h1, h2],
+                                   "observed": [y1[:, b].tolist(), y2[:, b].tolist()], "lens": lens})
+                    break
+                if not O.close(lp1[b].item(), e1, TOL) or not O.close(lp2[b].item(), e2, TOL):
+                    ok = False
+                    ctx.violation(dict(sig0, symptom="wrong-log-prob"), case,
+                                  {"batch_element": b, "expected": [e1, e2], "observed": [lp1[b].item(), lp2[b].item()]})
+                    break
+            want_lp = sum(lpt_l[k][b][draws[k][b]] for k in range(2) for b in range(N))
+            if ok and not O.close(math.log(ch.prob), want_lp, TOL):
+                ok = False
+                ctx.violation(dict(sig0, symptom="log-prob-vs-draw-probabilities"), case,
+                              {"log_prob_of_draws": math.log(ch.prob), "expected": want_lp})
+            if ok:
+                ctx.traces += 1
+                ctx.outcome(["w", rows1, rows2, lens is None])
+                kept.append((ch.choices, [(t, t.clone()) for t in (y1, lp1, y2, lp2)]))
+        # every rollout from the shared buffer is still what it was when it was returned
+        for choices, pairs in kept:
+            if any(not _bits_equal(t, c) for t, c in pairs):
+                ctx.violation(dict(sig0, symptom="earlier-rollout-changed-by-later-rollout"),
+                              dict(case0, choices=choices, whole_unit=True),
+                              {"was": [c for _, c in pairs], "now": [t for t, _ in pairs]})
+                break
+        if not O.close(mass, 1.0, 1e-9):
+            ctx.violation(dict(sig0, symptom="tree-mass-not-one"), dict(case0, whole_unit=True), {"mass": mass})
+        tree.flush(ctx)
+    ctx.sample({"part": "w", "unit": {k: u[k] for k in u if k != "w"}, "lens_patterns": len(patterns),
+                "prompt": prompt_l})
+
+
 def _j_unit(ctx, u, tier, seed, only=None):
     {"seq": _j_seq, "seqp": _j_seqp, "ctc": _j_ctc, "walk": _j_walk}[u["kind"]](ctx, u, tier, seed)
 
@@ -1515,12 +1841,12 @@ def _j_unit(ctx, u, tier, seed, only=None):
 # =========================================================================================
 # driver
 # =========================================================================================
-_RUN = {"a": _a_unit, "p": _p_unit, "b": _b_unit, "c": _c_unit, "s": _s_unit, "d": _d_unit, "j": _j_unit}
+_RUN = {"a": _a_unit, "p": _p_unit, "b": _b_unit, "c": _c_unit, "s": _s_unit, "d": _d_unit, "j": _j_unit, "w": _w_unit}
 
 
 def _all_units(tier):
     return (_a_units(tier) + _p_units(tier) + _b_units(tier) + _c_units(tier) + _s_units(tier) + _d_units(tier)
-            + _j_units(tier))
+            + _j_units(tier) + _w_units(tier))
 
 
 def shards(tier, seed):
@@ -1556,6 +1882,8 @@ def replay(case):
         _p_unit(ctx, u, tier, seed, only=case.get("sub"))
     elif part in ("b", "c"):
         _RUN[part](ctx, u, tier, seed, only=case.get("choices"))
+    elif part == "w":
+        _w_unit(ctx, u, tier, seed, only=case.get("sub"))
     else:
         _RUN[part](ctx, u, tier, seed)
     return ctx
